@@ -200,7 +200,7 @@ func c02GenNode(t *rapid.T, mode string) c02Node {
 	return n
 }
 
-func c02GenPre(t *rapid.T, n c02Node, nSlots int) []c02PreENI {
+func c02GenPre(t *rapid.T, n c02Node, nSlots int, mode string) []c02PreENI {
 	var out []c02PreENI
 	np := rapid.IntRange(0, min(3, n.Adapters-1)).Draw(t, "npre")
 	hasTrunk := false
@@ -238,6 +238,26 @@ func c02GenPre(t *rapid.T, n c02Node, nSlots int) []c02PreENI {
 			}
 			p.Binds = append(p.Binds, b)
 		}
+		if mode == "C08" {
+			// C08 does not quantify over drifted or partially bound records: pre-existing
+			// interfaces are either recorded exactly or not yet known to the controller
+			p.RecStatus, p.Del, p.Untagged = "", nil, false
+			if p.Rec == "stale" {
+				p.Rec = "exact"
+			}
+			for j := range p.Binds {
+				p.Binds[j].Rec, p.Binds[j].Alive = "full", true
+				if p.Binds[j].Reports != "none" {
+					p.Binds[j].Reports = "both"
+				}
+			}
+			if p.Rec == "absent" {
+				p.Binds = nil
+			}
+			if p.Type == "erdma" && !n.ERDMA {
+				p.Type = "secondary"
+			}
+		}
 		out = append(out, p)
 	}
 	return out
@@ -247,7 +267,11 @@ func c02GenOp(t *rapid.T, mode string, n c02Node, nSlots int) c02Op {
 	kinds := []string{"create", "create", "create", "create", "delete", "delete", "exit", "cniadd", "cniadd", "reportdeleted", "reportdeleted",
 		"reconcile", "reconcile", "reconcile", "reconcile", "reconcile", "fullsync", "drift", "restart", "apifault", "cloudfault"}
 	if mode == "C08" {
-		kinds = append(kinds, "cloudfault", "cloudfault", "cloudfault", "apifault", "reconcile", "reconcile", "create", "burst")
+		// C08 quantifies over pod histories and fault placements, not over out-of-band
+		// drift or controller restarts
+		kinds = []string{"create", "create", "create", "create", "create", "delete", "delete", "exit", "cniadd", "cniadd", "reportdeleted", "reportdeleted",
+			"reconcile", "reconcile", "reconcile", "reconcile", "reconcile", "reconcile", "reconcile", "fullsync", "apifault", "apifault",
+			"cloudfault", "cloudfault", "cloudfault", "cloudfault", "burst"}
 	} else {
 		kinds = append(kinds, "burst", "drift", "restart")
 	}
@@ -291,7 +315,14 @@ func c02GenLoop(mode string) func(t *rapid.T) c02Scenario {
 			sl.PodENI = rapid.IntRange(0, 11).Draw(t, "slot_podeni") == 0
 			s.Slots = append(s.Slots, sl)
 		}
-		s.Pre = c02GenPre(t, s.Node, nSlots)
+		s.Pre = c02GenPre(t, s.Node, nSlots, mode)
+		if mode == "C08" {
+			for _, p := range s.Pre {
+				if p.Rec == "absent" {
+					s.Node.Synced = false // an unknown interface is only found by the first full sync
+				}
+			}
+		}
 		nops := rapid.IntRange(1, vt.Scale(22, 40)).Draw(t, "nops")
 		for i := 0; i < nops; i++ {
 			s.Ops = append(s.Ops, c02GenOp(t, mode, s.Node, nSlots))
@@ -338,6 +369,8 @@ type c08KENI struct {
 	byCreate bool // id was answered by a successful Create call
 }
 
+type c08Mon struct{ kind, msg string }
+
 type c02World struct {
 	c     *vt.Ctx
 	s     c02Scenario
@@ -364,11 +397,15 @@ type c02World struct {
 	// controller goroutines; read after Reconcile returned)
 	mu        sync.Mutex
 	k         map[string]*c08KENI
-	monitor   []string
+	monitor   []c08Mon
 	atQuota   bool // a monitor was evaluated at a boundary
 	seenFault map[string]bool
 	toldCreated map[string]bool
 	deleteFailed, everRecorded, writeFailAtCreate map[string]bool
+	tainted    map[string]bool // pods whose binding already violates C02 through a listed finding
+	overDemand int             // settle rounds in which addresses were requested although enough were idle
+	inSettle   bool
+	settleTail [][]cloudctl.Call // calls of the last settle rounds
 
 	nt bool
 }
@@ -390,7 +427,7 @@ func c02Hygiene() {
 func c02NewWorld(c *vt.Ctx, s c02Scenario) *c02World {
 	c02Hygiene()
 	w := &c02World{c: c, s: s, ctx: context.Background(), live: map[int]*c02LivePod{}, everPod: map[string]bool{},
-		k: map[string]*c08KENI{}, seenFault: map[string]bool{}, toldCreated: map[string]bool{}, deleteFailed: map[string]bool{}, everRecorded: map[string]bool{}, writeFailAtCreate: map[string]bool{}, clock: time.Now().Add(-24 * time.Hour).Truncate(time.Second)}
+		k: map[string]*c08KENI{}, seenFault: map[string]bool{}, toldCreated: map[string]bool{}, deleteFailed: map[string]bool{}, everRecorded: map[string]bool{}, writeFailAtCreate: map[string]bool{}, tainted: map[string]bool{}, clock: time.Now().Add(-24 * time.Hour).Truncate(time.Second)}
 	n := s.Node
 
 	// ---- cloud
@@ -883,8 +920,10 @@ func c02Fam(v6 bool) string {
 // c02CheckRecord checks the C02 invariants (i)-(vi) of DESIGN section 3 on a record, given
 // the record before the pass and the pod table as it was when the pass started. It returns
 // the first violation ("" if none) and classification facts.
-func c02CheckRecord(prev, cur map[string]*networkv1beta1.NetworkInterface, pods map[string]*c02PodView, everPod map[string]bool, dual, enableERDMA bool) (string, map[string]bool) {
+func c02CheckRecord(prev, cur map[string]*networkv1beta1.NetworkInterface, pods map[string]*c02PodView, everPod map[string]bool, tainted map[string]bool, enableERDMA bool) (string, map[string]bool) {
 	facts := map[string]bool{}
+	fresh4 := map[string]bool{} // pods whose IPv4 binding was created by this pass, not by take-over
+	old6 := map[string]bool{}   // pods whose IPv6 binding existed before this pass
 	where := map[string]string{}
 	type podB struct{ eni4, a4, eni6, a6 string }
 	byPod := map[string]*podB{}
@@ -921,6 +960,9 @@ func c02CheckRecord(prev, cur map[string]*networkv1beta1.NetworkInterface, pods 
 		}
 		// new binding?
 		if prevPod[key] == b.pod {
+			if b.v6 {
+				old6[b.pod] = true
+			}
 			continue
 		}
 		facts["new-binding"] = true
@@ -964,6 +1006,9 @@ func c02CheckRecord(prev, cur map[string]*networkv1beta1.NetworkInterface, pods 
 		if pv.erdma {
 			facts["rdma-binding"] = true
 		}
+		if !b.v6 {
+			fresh4[b.pod] = true
+		}
 	}
 	// (iii) dual stack: one interface per pod
 	pids := make([]string, 0, len(byPod))
@@ -976,11 +1021,21 @@ func c02CheckRecord(prev, cur map[string]*networkv1beta1.NetworkInterface, pods 
 		if pb.a4 != "" && pb.a6 != "" {
 			facts["dual-bound"] = true
 			if pb.eni4 != pb.eni6 {
+				if tainted[p] {
+					continue
+				}
+				if fresh4[p] && old6[p] {
+					// candidate defect: the IPv4 choice ignores the interface of an existing IPv6 binding
+					facts["class:C02-v4-not-on-v6-eni"] = true
+					facts["taint:"+p] = true
+					if c08Known("C02-v4-not-on-v6-eni") {
+						continue
+					}
+				}
 				return fmt.Sprintf("(iii) pod %s has IPv4 %s on %s but IPv6 %s on %s", p, pb.a4, pb.eni4, pb.a6, pb.eni6), facts
 			}
 		}
 	}
-	_ = dual
 	return "", facts
 }
 
